@@ -67,6 +67,11 @@ static std::string get_readable_dname(std::string& wire_dname)
             return wire_dname;
 
         labels++;
+
+        // Domain name isn't terminated by the root label
+        if (pos >= dname.size())
+            return wire_dname;
+
         label_len = dname[pos];
 
         // Replace all label length bytes with '.' character
